@@ -45,9 +45,11 @@ fn main() {
             }
             proc::cfgprobe_main(&args[2]);
         }
-        "sched-child" => {
-            // placeholder for future use
-            usage();
+        "c06-depth" => {
+            if args.len() < 4 {
+                usage();
+            }
+            checks::codec::depth_child(args[2].parse().unwrap(), &args[3]);
         }
         "check" => {
             if args.len() < 3 {
